@@ -299,3 +299,20 @@ def _is_sp_operand(fx, fn, op, b):
             if rv.get("variant") == "SP":
                 return True
     return False
+
+
+def rule_abi_args_only(ctx):
+    """the setup(n) rows of R-ABI (parameter placement, heap/free initialisation) for C20"""
+    out = []
+    for b in ("x86_64", "aarch64"):
+        r = ctx.memo("abi-" + b, lambda b=b: rule_abi(b)(ctx))
+        import copy
+        r2 = copy.copy(r)
+        r2.instances = [i for i in r.instances if ":setup(" in i["key"]]
+        r2.violations = [v for v in r.violations if ":setup(" in v.key]
+        r2.nontrivial = {i["key"] for i in r2.instances}
+        r2.obligations = len(r2.instances)
+        r2.discharged = len([i for i in r2.instances if i["verdict"] == "ok"])
+        r2.floor = 0
+        out.append(r2)
+    return out
